@@ -1,6 +1,7 @@
 package props
 
 import (
+	"bytes"
 	"encoding/json"
 	"fmt"
 	"math/rand"
@@ -102,6 +103,19 @@ func poolCatalogue(r *core.Run, rng *rand.Rand) ([]poolTarget, bool) {
 		entry := map[string]string{"tiff": "DecodeTiff", "jpeg": "Decode", "png": "DecodePng", "cr3": "DecodeCR3", "heif": "Decode"}[cont]
 		d := wrapContainer(cont, it, []string{"LE", "BE"}[k%2], rng, k%3)
 		add(fmt.Sprintf("record#%d/%s/%s", k, cont, entry), cls, exifCall(entry, d, -1))
+		if len(it.C.Offs) > 0 { // the stream ends INSIDE an out-of-line value, on the paths with and without a bufio reader
+			t := it.Tiff["LE"]
+			first := it.C.Offs[0]
+			n := 0
+			for c := first + 1; c < len(t) && n < 10; c += 1 + (len(t)-first)/10 {
+				add(fmt.Sprintf("record#%d/value-cut@%d/Parse", k, c), cls, exifCall("Parse", t, c))
+				p := gen.WrapPNG(t, rng, 0)
+				if at := bytes.Index(p, t[:8]); at > 0 {
+					add(fmt.Sprintf("record#%d/value-cut@%d/DecodePng", k, c), cls, exifCall("DecodePng", p, at+c))
+				}
+				n++
+			}
+		}
 		if cont == "tiff" { // exact-length file (no trailing bytes) and truncated files
 			add(fmt.Sprintf("record#%d/tiff-exact/Parse", k), cls, exifCall("Parse", it.Tiff["LE"], -1))
 			add(fmt.Sprintf("record#%d/tiff-cut/Decode", k), cls, exifCall("Decode", d, len(d)-3))
@@ -150,6 +164,9 @@ func poolCatalogue(r *core.Run, rng *rand.Rand) ([]poolTarget, bool) {
 		add(fn+"/rgba64x32", 0, hashOp(fn, img("RGBA", 64, 32, "noise", 15)))
 		add(fn+"/gray128", 0, hashOp(fn, img("Gray", 128, 128, "smooth", 16)))
 		add(fn+"/nil", 0, hashOp(fn, img("nil", 0, 0, "", 0)))
+		// fully / half transparent pixels in both alpha-carrying kinds
+		add(fn+"/rgba64-holes", 3, hashOp(fn, img("RGBA", 64, 64, "holes", 51)))
+		add(fn+"/nrgba64-holes", 3, hashOp(fn, img("NRGBA", 64, 64, "holes", 52)))
 		// rectangles off the diagonal whose width (or height) is the required one
 		add(fn+"/rgba64x74@10,0", 0, hashOp(fn, img("RGBA", 64, 74, "noise", 17, 10, 0, 0)))
 		add(fn+"/gray74x64@0,10", 0, hashOp(fn, img("Gray", 74, 64, "noise", 18, 0, 10, 0)))
@@ -165,6 +182,8 @@ func poolCatalogue(r *core.Run, rng *rand.Rand) ([]poolTarget, bool) {
 		add(fn+"/rgba256-smooth", 3, hashOp(fn, img("RGBA", 256, 256, "smooth", 21)))
 		add(fn+"/ycbcr256-noise", 3, hashOp(fn, img("YCbCr", 256, 256, "noise", 22)))
 		add(fn+"/rgba64", 0, hashOp(fn, img("RGBA", 64, 64, "noise", 23)))
+		add(fn+"/rgba256-holes", 3, hashOp(fn, img("RGBA", 256, 256, "holes", 53)))
+		add(fn+"/nrgba256-holes", 3, hashOp(fn, img("NRGBA", 256, 256, "holes", 54)))
 		add(fn+"/gray256x255", 0, hashOp(fn, img("Gray", 256, 255, "noise", 24)))
 	}
 	return ts, true
